@@ -516,6 +516,40 @@ func ExchangeCases(tier string, seed uint64) []ExCase {
 		e.Rig.WaitEvents("wrote", 1, 3*time.Second)
 	})
 
+	// the origin dies in the middle of the body (after the head has been relayed): the write of the response fails after the head
+	for _, k := range []struct{ n, head string; rst bool }{
+		{"length-fin", "HTTP/1.1 200 OK\r\nContent-Length: 100\r\n\r\n", false},
+		{"length-rst", "HTTP/1.1 200 OK\r\nContent-Length: 100\r\n\r\n", true},
+		{"chunked-fin", "HTTP/1.1 200 OK\r\nTransfer-Encoding: chunked\r\n\r\n64\r\n", false},
+		{"chunked-rst", "HTTP/1.1 200 OK\r\nTransfer-Encoding: chunked\r\n\r\n64\r\n", true},
+	} {
+		k := k
+		add("origin-dies-mid-body-"+k.n, "write-fail", func(e *Env) {
+			o := e.Peer(func(c net.Conn, n int) {
+				if _, err := ReadHead(c, 5*time.Second); err != nil {
+					c.Close()
+					return
+				}
+				c.Write([]byte(k.head + "0123456789"))
+				time.Sleep(30 * time.Millisecond)
+				if k.rst {
+					Reset(c)
+				} else {
+					c.Close()
+				}
+			})
+			e.Start(nil)
+			c := e.Client()
+			c.Write([]byte(getReq("http://" + o.Addr + "/cut")))
+			co := ReadResponse(c, false, 3*time.Second)
+			if co.P.Verdict == VComplete {
+				e.Failf("a truncated reply was delivered as a complete message")
+			}
+			e.O.Exs = []Ex{{Val: Val{W: 2}, Method: "GET", UpStatus: 200}}
+			e.Rig.WaitEvents("wrote", 1, 3*time.Second)
+		})
+	}
+
 	// client aborts while downloading: origin sends a large body, client resets after the head
 	add("client-abort-download", "write-fail", func(e *Env) {
 		big := strings.Repeat("x", 8<<20)
